@@ -75,6 +75,11 @@ func init() {
 		}
 		c.Rule("C02-R8", "MERGE-AGAINST-STORED: every key the iterator yields is merged with exactly the value stored under it in the same transaction (no path bypasses the lookup), and only that decision is applied")
 		ruleUpdateLoop(c, "C02-R8")
+		// the merge function is order-insensitive only for the versions as they
+		// were written: remote entries keep their own timestamps (no default
+		// timestamp, the load-time cutoff, this transaction's id)
+		ruleLoadBody(c, "C02-R8", "C02-R8", "C02-R8", "C02-R8", "C02-R8")
+		ruleEntryDecodedIntoZero(c, "C02-R8")
 		sampleTable(c, t, 40)
 		c.Notes = append(c.Notes, "universe: timestamps "+fmtU(u.TS)+", values "+fmtS(u.Vals)+", format versions "+fmtU(u.FVs))
 	})
@@ -171,6 +176,7 @@ func init() {
 		c.Rule("C05-R7", "cleaner delete rules (see C12)")
 		ruleOwnFirst(c, "C05-R1")
 		ruleWaitSet(c, "C05-R2")
+		ruleCleanDisappeared(c, "C05-R2")
 		ruleListingIncludesOwn(c, "C05-R3")
 		ruleStoreOrFail(c, "C05-R4", "C05-R5", "C05-R4")
 		ruleRetryCountValidated(c, "C05-R4")
@@ -526,6 +532,7 @@ func init() {
 		ruleCollectionExhausted(c, "C17-R3", "utils/topics.(*Topic[T]).Publish", `[^()]*\.subscribers`, "the subscribers of the topic", nil)
 		ruleGetGlobal(c, "C17-R5")
 		ruleCancellableLoops(c, "C17-R6")
+		ruleWaitAfterCancel(c, "C17-R6")
 		ruleSleepContext(c, "C17-R6")
 		ruleLimiter(c, "C17-R7")
 		c.Rule("C17-R8", "SHARED-FIELDS: every struct field written after construction and reachable from goroutines not ordered by start-up is accessed under a common lock (static lockset over the VTA call graph)")
@@ -557,7 +564,9 @@ func init() {
 		ruleCollectionExhausted(c, "C07-R1", "snapshot.(*Snapshot).WriteTo", `[^()]*\.Databases`, "the DBIs of the snapshot", nil)
 		ruleCollectionExhausted(c, "C07-R4", "snapshot.(*Snapshot).Unmarshal", `\(\*csproto\.Decoder\)\.More@[\w~]+`, "the fields of the message", nil)
 		ruleCollectionExhausted(c, "C07-R4", "snapshot.(*Meta).Unmarshal", `\(\*csproto\.Decoder\)\.More@[\w~]+`, "the fields of the message", nil)
+		ruleEndTestEveryField(c, "C07-R4", "snapshot.(*KV).Unmarshal", "snapshot.(*DBI).indexData")
 		ruleNoReceiverReset(c, "C07-R5")
+		ruleEntryDecodedIntoZero(c, "C07-R5")
 		c.Rule("C07-R6", "OUTPUT-FRESH: encoder results do not alias package-level storage")
 		ruleEncoderOutputFresh(c, "C07-R6")
 		c.Rule("C07-R7", "WRITE-FITS: every encoder scratch buffer is at least as long as the most the encoder can write into it, for all field lengths")
